@@ -11,4 +11,5 @@ INVARIANT AgreeResolve
 INVARIANT RefDefined
 INVARIANT IndexAgree
 INVARIANT FreshEquiv
+INVARIANT FreshVerdict
 CHECK_DEADLOCK FALSE
